@@ -21,11 +21,18 @@ GInit == Init /\ helper = FALSE /\ hist = <<>>
 Thr == IF helper /\ N % 2 = 1 THEN 1 ELSE 0
 Eff(s) == Effect(s, disp[s])
 
+\* TLC's simulator first picks one of the sub-actions of Next (disjuncts, with the bounded
+\* quantifiers over CONSTANT sets expanded) and then one of its successors, so the number of
+\* constant-level variants of an operation is its weight: an install offers two of the six
+\* dispositions (rotating with the position), a raise counts twice
+DispSeq == <<Dfl, [k |-> "handler", h |-> 1], [k |-> "sigaction", h |-> 1], Ign, [k |-> "handler", h |-> 2], [k |-> "sigaction", h |-> 2]>>
+
 GNext ==
-    \/ \E s \in Sigs, d \in Disp :
+    \/ \E s \in Sigs, j \in 0..1 :
+          LET d == DispSeq[((N + j) % 6) + 1] IN
           /\ Install(Thr, s, d) /\ UNCHANGED helper
           /\ Log([op |-> "install", thr |-> Thr, sig |-> s, k |-> d.k, h |-> d.h])
-    \/ \E s \in Sigs, w \in 1..3 :          \* (w: weight only)
+    \/ \E s \in Sigs, w \in 1..2 :          \* (w: weight only)
           /\ UNCHANGED <<vars, helper>>
           /\ IF Fatal(Eff(s))
              THEN Log([op |-> "raise", thr |-> 0, sig |-> s, fork |-> TRUE, w |-> w])
@@ -34,11 +41,11 @@ GNext ==
           /\ Eff(s) = "run" /\ ~Fatal(Eff(s2))
           /\ UNCHANGED <<vars, helper>>
           /\ Log([op |-> "raise_nested", thr |-> Thr, sig |-> s, sig2 |-> s2])
-    \/ \E s \in Sigs, m \in {"read", "spin"} :
+    \/ \E s \in Sigs, m \in {"read", "spin"}, w \in 1..2 :
           /\ helper /\ ~Fatal(Eff(s))
           /\ UNCHANGED <<vars, helper>>
-          /\ Log([op |-> "raise_async", sig |-> s, mode |-> m, expect |-> Eff(s)])
-    \/ \E w \in 1..8 :
+          /\ Log([op |-> "raise_async", sig |-> s, mode |-> m, expect |-> Eff(s), w |-> w])
+    \/ \E w \in 1..6 :
           /\ ~helper /\ helper' = TRUE /\ UNCHANGED vars
           /\ Log([op |-> "spawn_thread", w |-> w])
 
